@@ -10,7 +10,7 @@
    absent (not admitted) — see notes/ALGO_design.md for the exact state. *)
 From Coq Require Import NArith List Bool.
 From CS Require Import Sx Str PathModel StateModel StateProofs ProvModel AlgoModel AlgoCheck AlgoProofs AlgoState AlgoProv AlgoInv AlgoInit AlgoQuiet AlgoIntake
-     AlgoSync AlgoLatest AlgoFinish AlgoSyncEntry AlgoStep AlgoUser.
+     AlgoSync AlgoLatest AlgoFinish AlgoSyncEntry AlgoStep AlgoUser AlgoCalls AlgoRun.
 Import ListNotations.
 Local Open Scope N_scope.
 
@@ -177,6 +177,7 @@ Print Assumptions ALGO_quiescent_equal_under_inv.
 Theorem ALGO_inv_user_create : forall used lvL lvR g w sd n d,
   Inv g w -> NoTmp w -> Dom used lvL lvR g w -> name_ok n = true -> name_mem n used = false ->
   exists g', Inv g' (user_op w sd (UCreate [n] d)) /\ NoTmp (user_op w sd (UCreate [n] d)) /\
+     (forall k, g_get k (g_of g' (negb sd)) = g_get k (g_of g (negb sd))) /\
      Dom (n :: used) (if sd then lvL else ([n], [d]) :: lvL) (if sd then ([n], [d]) :: lvR else lvR) g' (user_op w sd (UCreate [n] d)).
 Proof. exact user_create_pres. Qed.
 Print Assumptions ALGO_inv_user_create.
@@ -185,6 +186,7 @@ Theorem ALGO_inv_user_write : forall used lvL lvR g w (sd : bool) rel d cs,
   Inv g w -> NoTmp w -> Dom used lvL lvR g w ->
   live_get rel (if sd then lvR else lvL) = Some cs -> n_mem d cs = false ->
   exists g', Inv g' (user_op w sd (UWrite rel d)) /\ NoTmp (user_op w sd (UWrite rel d)) /\
+    (forall k, g_get k (g_of g' (negb sd)) = g_get k (g_of g (negb sd))) /\
     Dom used (if sd then lvL else (rel, d :: cs) :: live_del rel lvL) (if sd then (rel, d :: cs) :: live_del rel lvR else lvR)
         g' (user_op w sd (UWrite rel d)).
 Proof. exact user_write_pres. Qed.
@@ -194,6 +196,7 @@ Theorem ALGO_inv_user_delete : forall used lvL lvR g w (sd : bool) rel cs,
   Inv g w -> NoTmp w -> Dom used lvL lvR g w ->
   live_get rel (if sd then lvR else lvL) = Some cs ->
   exists g', Inv g' (user_op w sd (UDelete rel)) /\ NoTmp (user_op w sd (UDelete rel)) /\
+    (forall k, g_get k (g_of g' (negb sd)) = g_get k (g_of g (negb sd))) /\
     Dom used (if sd then lvL else live_del rel lvL) (if sd then live_del rel lvR else lvR) g' (user_op w sd (UDelete rel)).
 Proof. exact user_delete_pres. Qed.
 Print Assumptions ALGO_inv_user_delete.
@@ -217,6 +220,23 @@ Theorem ALGO_quiescent_equal : forall t0 lg0 acts w,
   forall rel kd d, In (rel, (kd, d)) (rel_view w false) <-> In (rel, (kd, d)) (rel_view w true).
 Proof. exact algo_quiescent_equal. Qed.
 Print Assumptions ALGO_quiescent_equal.
+
+(* ---- C03: the origin is untouched --------------------------------------------------------------------------- *)
+(* [algo_run_calls] = algo_run keeping the engine-issued provider calls of every step (the calls the tie compares with
+   the real engine's, step by step).  [CallsOk g cs]: every call goes to the side opposite to a side that holds a
+   user-made object.  One engine step, from any world satisfying the invariant: *)
+Theorem ALGO_engine_calls : forall g w a w' cs,
+  Inv g w -> NoTmp w -> algo_step w a = ROk (w', cs) -> CallsOk g cs.
+Proof. exact engine_step_calls. Qed.
+Print Assumptions ALGO_engine_calls.
+
+(* users act on side sd only (any in-domain history, any schedule) => EVERY provider call the engine issues in the
+   whole run - create / upload / delete / rename / mkdir, successful or refused - goes to the other side *)
+Theorem ALGO_origin_untouched : forall t0 lg0 acts sd w cs,
+  lg0 <= t0 + 1 -> in_F1 (cfg_std 1) (history_of acts) = true -> one_sided sd (history_of acts) = true ->
+  algo_run_calls (world_init (cfg_std 1) t0 lg0) acts = ROk (w, cs) -> on_side (negb sd) cs.
+Proof. exact algo_origin_untouched. Qed.
+Print Assumptions ALGO_origin_untouched.
 
 (* ---- the full-strength statement is false: finding A-1 ------------------------------------------------------ *)
 (* dropping "a content written to a file is new for that file" from the domain: a one-sided history of 4
@@ -246,6 +266,17 @@ Example ALGO_ex_run :
             In ([[102]], (ProvModel.KFile, 4)) (rel_view w false) /\ In ([[102]], (ProvModel.KFile, 4)) (rel_view w true) /\
             In ([[103]], (ProvModel.KFile, 1)) (rel_view w true).
 Proof. exact conv_converges. Qed.
+(* ... and in that run the engine issues 3 provider calls (2 creates, 1 upload), all on REMOTE, all successful *)
+Example ALGO_ex_run_calls :
+  exists w cs, algo_run_calls (world_init (cfg_std 1) aba_t0 aba_lg0) conv_actions = ROk (w, cs) /\
+               map cl_side cs = [true; true; true] /\ map cl_ok cs = [true; true; true].
+Proof.
+  destruct (algo_run_calls (world_init (cfg_std 1) aba_t0 aba_lg0) conv_actions) as [[w cs]|c] eqn:E.
+  - exists w, cs. split; [reflexivity|].
+    assert (Hw: ROk (w, cs) = algo_run_calls (world_init (cfg_std 1) aba_t0 aba_lg0) conv_actions) by (symmetry; exact E).
+    clear E. vm_compute in Hw. injection Hw as -> ->. split; reflexivity.
+  - exfalso. vm_compute in E. discriminate.
+Qed.
 (* the domain of F1 is inhabited by histories that make the engine work *)
 Example ALGO_ex_domain : in_F1 (cfg_std 1) [(false, UCreate [[102]] 2); (true, UCreate [[103]] 1); (false, UWrite [[102]] 3); (false, UDelete [[102]])] = true.
 Proof. reflexivity. Qed.
